@@ -659,4 +659,28 @@ example :
     (handlePull id rcfg Cache.empty
       [⟨0, .ok mABC, [.list [⟨[97, 98], 0, 2⟩, ⟨[99], 2, 1⟩]], [.release 0 (.fail .status5xx), .release 0 (.body [[99]] .eof)]⟩, o3]).1.links 0 = some mABCD := by
   decide
+/-! ### Branch tags of the push models walk the model's exchanges -/
+
+/-- one tag per physical request: the tagged walk is the walk of `exchangeFrom` -/
+theorem exchangeTagsFrom_length (fuel : Nat) : ∀ (sent : Nat) (m : Method) (b : BodyKind) (rs : List Resp),
+    (exchangeTagsFrom fuel sent m b rs).length = (exchangeFrom fuel sent m b rs).1.length := by
+  induction fuel with
+  | zero => intro sent m b rs; simp [exchangeTagsFrom, exchangeFrom]
+  | succ fuel ih =>
+    intro sent m b rs
+    unfold exchangeTagsFrom exchangeFrom
+    simp only
+    generalize rs.headD ⟨200, false⟩ = r
+    by_cases h0 : r.status = 0
+    · rw [if_pos h0, if_pos h0]; rfl
+    · rw [if_neg h0, if_neg h0]
+      cases hf : follow m b r with
+      | none => rfl
+      | some p =>
+        obtain ⟨m', b'⟩ := p
+        simp only []
+        by_cases hs : sent ≥ 10
+        · rw [if_pos hs, if_pos hs]; rfl
+        · rw [if_neg hs, if_neg hs]; simp [ih]
+
 end OllamaVerif.C09
